@@ -102,7 +102,7 @@ class WTG:
 
 class DiskWriteToGranules:
     name = "disk_wtg"
-    props = ("C08", "C07", "C13")
+    props = ("C08", "C07", "C13", "C16", "C09")
     max_paths = 400
 
     def cells(self, tier):
@@ -139,14 +139,18 @@ class DiskWriteToGranules:
         need = len(stream) // GR + 1
         if len(set(chain)) != len(chain) or any(not 0 <= g <= 67 for g in chain) or len(chain) < need:
             raise sym.PathAbort()
+        arg_data, arg_chain = list(data), list(chain)
         try:
             if kind.startswith("REC"):
-                F.method(d, "write_to_granules", list(data), list(chain), None, post, first_granule=False)
+                F.method(d, "write_to_granules", arg_data, arg_chain, None, post, first_granule=False)
             else:
-                F.method(d, "write_to_granules", list(data), list(chain), pre, post)
+                F.method(d, "write_to_granules", arg_data, arg_chain, pre, post)
         except Raised as e:
             env.fail(KEY + "write_to_granules::raises:none", ("C08", "C13"), lambda: "write_to_granules:%s:raised:%s" % (kind, e.cls))
             return
+        # the caller's lists are outside the frame (the data list belongs to the CoCoFile, which goes to other containers later)
+        env.ensure(KEY + "write_to_granules::post:frame:arguments-unchanged", arg_data == list(data) and arg_chain == list(chain), ("C16", "C09"),
+                   lambda: "write_to_granules:%s:arguments-modified:data %d->%d,chain %d->%d" % (kind, len(data), len(arg_data), len(chain), len(arg_chain)))
         ok = all(buf[db.offset(chain[j // GR]) + j % GR] == stream[j] for j in range(len(stream)))
         env.ensure(KEY + "write_to_granules::post:stream", ok, ("C08", "C07"), lambda: "write_to_granules:%s:stream:L=%d" % (kind, len(data)))
         region = set()
@@ -278,6 +282,7 @@ class DiskWriteToGranules:
             amble_contract("BasicPreamble", W.PRE)
         if has_post:
             amble_contract("Postamble", W.POST)
+        data_arr0 = data.arr if isinstance(data, ArrList) else None
         with v.installed():
             try:
                 if kind.startswith("REC"):
@@ -291,6 +296,8 @@ class DiskWriteToGranules:
         facts = v.facts
         g0 = W.g(0)
         o0 = offset(g0)
+        if isinstance(data, ArrList):
+            env.ensure(key + "::post:frame:arguments-unchanged", And(data.arr is data_arr0, data.length() == L), ("C16", "C09"))
 
         def hyp(q_or_j):
             # named instances of the chain precondition (positions 0, 1, and the positions the index can denote)
